@@ -1,5 +1,5 @@
 """check --replay <file>: re-run a recorded violation against the real crate (current tree)."""
-import json, sys, os
+import json, os, sys, os
 HERE = os.path.dirname(os.path.abspath(__file__))
 sys.path.insert(0, HERE)
 
@@ -31,5 +31,21 @@ def replay_file(path):
             same = str(r['expected']).replace('Some(', '').replace(')', '') in joined
         print('REPRODUCED' if not same else 'NOT REPRODUCED (the current tree returns what the spec demands)')
         return 1 if not same else 0
+    if r.get('kind') == 'kani':
+        # re-run Kani's counterexample natively on the real code of the CURRENT tree (harness = real functions + assertion)
+        import tasks, prep
+        ctx = prep.Ctx()
+        with ctx.lock('kani'):
+            dst = tasks.kani_scratch(ctx)
+            env = dict(os.environ)
+            env['CARGO_TARGET_DIR'] = os.path.join(prep.CACHE, 'target_kani')
+            env['CARGO_NET_OFFLINE'] = 'true'
+            pb = tasks.kani_playback(dst, env, r['harness'], vals=r['concrete_vals'])
+        print('harness    : %s (kani/harness.rs; it calls the real functions and asserts their contract)' % r['harness'])
+        print('inputs     : kani::any() values %s' % r['concrete_vals'])
+        print('CBMC said  : %s' % str(r.get('failed_checks'))[:600])
+        print('real code  : %s' % pb['output'][:800])
+        print('REPRODUCED' if pb['confirmed'] else 'NOT REPRODUCED (the harness passes on the current tree with these values)')
+        return 1 if pb['confirmed'] else 0
     print('unknown replay kind')
     return 2
